@@ -3,6 +3,7 @@ package rules
 import (
 	"fmt"
 	"go/ast"
+	"go/constant"
 	"go/importer"
 	"go/parser"
 	"go/token"
@@ -21,7 +22,7 @@ import (
 func init() { register("C11", checkC11) }
 
 func checkC11(c *core.Ctx) {
-	c.Explainf("C11 (decided clause: the discipline of the pending 'next record' attributes; faithfulness of a parser as a whole is behaviour and is NOT decided). R1: for the definition loop of ReadFile and the member loops of readEnum/readStruct/readMessage/readUnion, the loop-carried locals that hold a pending attribute (comment lines, opcode, readonly, flags; per-member comment, tags, deprecation) form a typestate {clear, maybe-set}; on every CFG path (go/cfg, with refinement on `if v`/`if v != 0` guards, iterated to a fixpoint over the loop) an iteration that completed a definition reaches the loop head with every pending attribute clear — an attribute annotates one definition and no other. R1b: an iteration that matched a token but completed no definition does not clear a pending opcode/readonly/flags/deprecation (the attribute would be lost before its definition). R2: every definition kind either consumes or rejects each of opcode and flags (kind x attribute matrix). R3: evaluateBitflagExpr instantiates the evaluator with the integer type of exactly the signedness and width it dispatches on, and covers the image of decodeIntegerType. R4: skipFollowingWhitespace skips every byte the token tree treats as insignificant. R5: whether a member is deprecated is recorded by a pure flag set in the clause that called readDeprecated, never derived from the message text (`[deprecated(\"\")]` is well formed). R6: the tokenizer uses no bufio primitive bounded by the buffer size (ReadSlice outside a loop on ErrBufferFull, ReadLine, Peek of more than a 16-byte constant, Scanner): comments and literals have no length limit (positive control: fixtures/limitedread). R7: in numberToken's chain of byte classes, for every letter a-f/A-F and every assignment of the boolean locals with the hex flag(s) set, the first condition that holds is the hex-digit arm's (finite decision table over the conditions, the package's one-line predicates inlined). R8: every loop of parse_expr.go that looks for the `)` closing a group also looks at `(` and keeps a depth count. R9: every table from spellings to token kinds holds only the format's reserved words (a spec-side list). NOT decided: token-to-field mapping, source order, layout independence beyond R4.")
+	c.Explainf("C11 (decided clause: the discipline of the pending 'next record' attributes; faithfulness of a parser as a whole is behaviour and is NOT decided). R1: for the definition loop of ReadFile and the member loops of readEnum/readStruct/readMessage/readUnion, the loop-carried locals that hold a pending attribute (comment lines, opcode, readonly, flags; per-member comment, tags, deprecation) form a typestate {clear, maybe-set}; on every CFG path (go/cfg, with refinement on `if v`/`if v != 0` guards, iterated to a fixpoint over the loop) an iteration that completed a definition reaches the loop head with every pending attribute clear — an attribute annotates one definition and no other. R1b: an iteration that matched a token but completed no definition does not clear a pending opcode/readonly/flags/deprecation (the attribute would be lost before its definition). R2: every definition kind either consumes or rejects each of opcode and flags (kind x attribute matrix). R3: evaluateBitflagExpr instantiates the evaluator with the integer type of exactly the signedness and width it dispatches on, and covers the image of decodeIntegerType. R4: skipFollowingWhitespace skips every byte the token tree treats as insignificant. R5: whether a member is deprecated is recorded by a pure flag set in the clause that called readDeprecated, never derived from the message text (`[deprecated(\"\")]` is well formed). R6: the tokenizer uses no bufio primitive bounded by the buffer size (ReadSlice outside a loop on ErrBufferFull, ReadLine, Peek of more than a 16-byte constant, Scanner): comments and literals have no length limit (positive control: fixtures/limitedread). R7: in numberToken's chain of byte classes, for every letter a-f/A-F and every assignment of the boolean locals with the hex flag(s) set, the first condition that holds is the hex-digit arm's (finite decision table over the conditions, the package's one-line predicates inlined). R8: every loop of parse_expr.go that looks for the `)` closing a group also looks at `(` and keeps a depth count. R9: every table from spellings to token kinds holds only the format's reserved words (a spec-side list). R10: a table the tokenizer indexes with an input byte is indexed with the byte itself (not masked or reduced modulo a constant) and, if an array, has 256 entries (positive control: fixtures/bytetable). R11: a strings/bytes trimming call in the parser or tokenizer that names '\\n' names '\\r' too, or the function trims '\\r' elsewhere (positive control: fixtures/lineend). NOT decided: token-to-field mapping, source order, layout independence beyond R4.")
 	p := loadRepo(c)
 	if p == nil {
 		return
@@ -48,6 +49,269 @@ func checkC11(c *core.Ctx) {
 	hexLettersAreDigits(c, p)
 	groupScansCountNesting(c, p)
 	reservedWordsAreTheFormats(c, p)
+	byteTablesAreInjective(c, p)
+	lineEndsAreTrimmedTogether(c, p)
+}
+
+// scanByteTables: R10. A table the tokenizer indexes with an input byte tells
+// all 256 byte values apart: the index is the byte itself (not the byte masked
+// or reduced modulo a constant, which files two different input bytes under one
+// entry — a UTF-8 lead byte is then read as '[' or ']'), and an array so
+// indexed has 256 entries (a shorter one panics on the bytes beyond it). A
+// masked or short index under a comparison of the same byte with a constant
+// is a range-compacted table and is left undecided.
+func scanByteTables(info *types.Info, files []*ast.File, report func(fn, what string, pos token.Pos, unsure bool)) (sites int) {
+	isByte := func(t types.Type) bool {
+		b, ok := t.Underlying().(*types.Basic)
+		return ok && b.Kind() == types.Uint8
+	}
+	for _, f := range files {
+		for _, d := range f.Decls {
+			fd, ok := d.(*ast.FuncDecl)
+			if !ok || fd.Body == nil {
+				continue
+			}
+			// byte-typed operands compared with a constant somewhere in the function
+			guarded := map[string]bool{}
+			ast.Inspect(fd.Body, func(n ast.Node) bool {
+				if be, ok := n.(*ast.BinaryExpr); ok {
+					switch be.Op {
+					case token.LSS, token.LEQ, token.GTR, token.GEQ:
+						for _, pair := range [][2]ast.Expr{{be.X, be.Y}, {be.Y, be.X}} {
+							if t := info.TypeOf(pair[0]); t != nil && isByte(t) && info.Types[pair[1]].Value != nil {
+								guarded[wire.Canon(pair[0])] = true
+							}
+						}
+					}
+				}
+				return true
+			})
+			isGuarded := func(e ast.Expr) bool {
+				found := false
+				ast.Inspect(e, func(k ast.Node) bool {
+					if ke, ok := k.(ast.Expr); ok && guarded[wire.Canon(ke)] {
+						found = true
+					}
+					return !found
+				})
+				return found
+			}
+			ast.Inspect(fd.Body, func(n ast.Node) bool {
+				ix, ok := n.(*ast.IndexExpr)
+				if !ok {
+					return true
+				}
+				xt := info.TypeOf(ix.X)
+				if xt == nil {
+					return true
+				}
+				if pt, ok := xt.Underlying().(*types.Pointer); ok {
+					xt = pt.Elem()
+				}
+				arr, isArr := xt.Underlying().(*types.Array)
+				_, isMap := xt.Underlying().(*types.Map)
+				if !isArr && !isMap {
+					return true
+				}
+				idx := ast.Unparen(ix.Index)
+				// strip conversions: int(b), uint8(x)
+				for {
+					call, ok := idx.(*ast.CallExpr)
+					if !ok || len(call.Args) != 1 || !info.Types[call.Fun].IsType() {
+						break
+					}
+					idx = ast.Unparen(call.Args[0])
+				}
+				// the byte masked or reduced
+				if be, ok := idx.(*ast.BinaryExpr); ok && (be.Op == token.AND || be.Op == token.REM) {
+					operand, cst := be.X, be.Y
+					if info.Types[operand].Value != nil {
+						operand, cst = be.Y, be.X
+					}
+					ot := info.TypeOf(operand)
+					k, isC := constInt(info, cst)
+					// a table of bytes or runes read at a nibble or a masked value is
+					// a translation (hex digits), not a classification of the input
+					var elem types.Type
+					if isArr {
+						elem = arr.Elem()
+					} else {
+						elem = xt.Underlying().(*types.Map).Elem()
+					}
+					if eb, ok := elem.Underlying().(*types.Basic); ok && (eb.Kind() == types.Uint8 || eb.Kind() == types.Int32) {
+						return true
+					}
+					if ot != nil && isByte(ot) && info.Types[operand].Value == nil && isC {
+						injective := be.Op == token.AND && k&0xff == 0xff || be.Op == token.REM && k >= 256
+						if !injective {
+							sites++
+							report(fd.Name.Name, wire.Canon(ix)+": the input byte is folded by "+wire.Canon(be)+", so bytes that differ share an entry", ix.Pos(), isGuarded(operand))
+						}
+					}
+					return true
+				}
+				if t := info.TypeOf(idx); t != nil && isByte(t) && info.Types[idx].Value == nil && isArr {
+					sites++
+					if arr.Len() < 256 {
+						// a byte the function itself read is an input byte; one it was
+						// handed may be a program constant (the table being built)
+						fromRead := false
+						if id, ok := idx.(*ast.Ident); ok {
+							o := info.ObjectOf(id)
+							ast.Inspect(fd.Body, func(k ast.Node) bool {
+								if as, ok := k.(*ast.AssignStmt); ok && len(as.Rhs) == 1 {
+									if _, isCall := ast.Unparen(as.Rhs[0]).(*ast.CallExpr); isCall {
+										for _, l := range as.Lhs {
+											if lid, ok := ast.Unparen(l).(*ast.Ident); ok && info.ObjectOf(lid) == o {
+												fromRead = true
+											}
+										}
+									}
+								}
+								return true
+							})
+						}
+						report(fd.Name.Name, fmt.Sprintf("%s: an array of %d entries indexed by a byte panics on the bytes from %d up", wire.Canon(ix), arr.Len(), arr.Len()), ix.Pos(), isGuarded(idx) || !fromRead)
+					}
+				}
+				return true
+			})
+		}
+	}
+	return sites
+}
+
+func byteTablesAreInjective(c *core.Ctx, p *load.Prog) {
+	pkg := p.Bebop()
+	var files []*ast.File
+	for _, f := range pkg.Syntax {
+		switch filepath.Base(p.Fset.Position(f.Pos()).Filename) {
+		case "tokenize.go", "token_tree.go", "token.go":
+			files = append(files, f)
+		}
+	}
+	if len(files) == 0 {
+		c.Undecide("the tokenizer's files were not found")
+		return
+	}
+	scanByteTables(pkg.TypesInfo, files, func(fn, what string, pos token.Pos, unsure bool) {
+		if unsure {
+			c.Undecide("C11/R10: %s in %s at %s, under a range test of the same byte: a range-compacted table the rule does not follow", what, fn, p.Pos(pos))
+			return
+		}
+		c.Check("R10", fn+" looks the input byte up as it is", p.Pos(pos), false, what+": a schema with a non-ASCII letter there is tokenized as if it held the ASCII byte of the same entry")
+	})
+	c.Check("R10", "the tokenizer's byte-indexed tables tell all byte values apart (scan complete)", "tokenize.go, token_tree.go", true, "")
+	f, info, err := typeCheckFixture(c, "bytetable")
+	if err != nil {
+		c.Undecide("positive control fixture bytetable: %v", err)
+		return
+	}
+	hits := map[string]bool{}
+	scanByteTables(info, []*ast.File{f}, func(fn, what string, pos token.Pos, unsure bool) {
+		if !unsure {
+			hits[fn] = true
+		}
+	})
+	for _, want := range []string{"masked", "reduced", "shortRead", "maskedMap"} {
+		c.Check("R10", "positive control: "+want+" is recognised", "fixtures/bytetable/fx.go", hits[want], "the rule no longer matches the shape it is meant to find")
+	}
+	for _, not := range []string{"full", "fullPtr", "byMap", "guardedShort", "lowNibble", "short"} {
+		c.Check("R10", "positive control: "+not+" is not reported", "fixtures/bytetable/fx.go", !hits[not], "")
+	}
+}
+
+// scanLineEndTrims: R11. The text of a line comment ends with the line break
+// the tokenizer read with it, "\n" or "\r\n". Wherever the parser cuts a line
+// break off token text with a strings/bytes trimming function, the characters
+// it names include '\r' whenever they include '\n' (or the same value is also
+// trimmed of '\r' in that function): otherwise every doc comment of a CRLF
+// file keeps a carriage return and a //[tag(...)] line no longer ends in ")]".
+func scanLineEndTrims(info *types.Info, files []*ast.File, report func(fn, what string, pos token.Pos)) (sites int) {
+	trimmers := map[string]bool{"Trim": true, "TrimRight": true, "TrimSuffix": true, "TrimLeft": true, "TrimPrefix": true, "TrimFunc": false, "TrimRightFunc": false}
+	for _, f := range files {
+		for _, d := range f.Decls {
+			fd, ok := d.(*ast.FuncDecl)
+			if !ok || fd.Body == nil {
+				continue
+			}
+			type site struct {
+				call *ast.CallExpr
+				set  string
+			}
+			var withLF []site
+			hasCR := false
+			ast.Inspect(fd.Body, func(n ast.Node) bool {
+				call, ok := n.(*ast.CallExpr)
+				if !ok || len(call.Args) != 2 {
+					return true
+				}
+				callee := load.Callee(info, call)
+				if callee == nil || callee.Pkg() == nil || (callee.Pkg().Path() != "strings" && callee.Pkg().Path() != "bytes") || !trimmers[callee.Name()] {
+					return true
+				}
+				tv := info.Types[call.Args[1]]
+				set := ""
+				if tv.Value != nil && tv.Value.Kind() == constant.String {
+					set = constant.StringVal(tv.Value)
+				} else if cl, ok := ast.Unparen(call.Args[1]).(*ast.CallExpr); ok && len(cl.Args) == 1 {
+					// []byte("\r\n")
+					if v := info.Types[cl.Args[0]].Value; v != nil && v.Kind() == constant.String {
+						set = constant.StringVal(v)
+					}
+				}
+				if set == "" {
+					return true
+				}
+				if strings.Contains(set, "\r") {
+					hasCR = true
+				}
+				if strings.Contains(set, "\n") && !strings.Contains(set, "\r") {
+					withLF = append(withLF, site{call, set})
+				}
+				if strings.Contains(set, "\n") {
+					sites++
+				}
+				return true
+			})
+			if !hasCR {
+				for _, s := range withLF {
+					report(fd.Name.Name, fmt.Sprintf("%s cuts %q off but not a carriage return", wire.Canon(s.call.Fun), s.set), s.call.Pos())
+				}
+			}
+		}
+	}
+	return sites
+}
+
+func lineEndsAreTrimmedTogether(c *core.Ctx, p *load.Prog) {
+	pkg := p.Bebop()
+	var files []*ast.File
+	for _, f := range pkg.Syntax {
+		switch filepath.Base(p.Fset.Position(f.Pos()).Filename) {
+		case "parse.go", "parse_expr.go", "tokenize.go", "token_tree.go":
+			files = append(files, f)
+		}
+	}
+	n := scanLineEndTrims(pkg.TypesInfo, files, func(fn, what string, pos token.Pos) {
+		c.Check("R11", fn+" trims both characters of a line end", p.Pos(pos), false, what+": the File read from a CRLF schema differs from the one read from the same schema with LF line ends")
+	})
+	c.Check("R11", "line ends are trimmed as \\r and \\n together (scan complete)", "parse.go", true, "")
+	c.Count("line_end_trim_sites", n)
+	c.Floor("line_end_trim_sites", 1)
+	f, info, err := typeCheckFixture(c, "lineend")
+	if err != nil {
+		c.Undecide("positive control fixture lineend: %v", err)
+		return
+	}
+	hits := map[string]bool{}
+	scanLineEndTrims(info, []*ast.File{f}, func(fn, what string, pos token.Pos) { hits[fn] = true })
+	for _, want := range []string{"lfOnly", "lfSuffix"} {
+		c.Check("R11", "positive control: "+want+" is recognised", "fixtures/lineend/fx.go", hits[want], "the rule no longer matches the shape it is meant to find")
+	}
+	for _, not := range []string{"both", "twoSteps", "spaces"} {
+		c.Check("R11", "positive control: "+not+" is not reported", "fixtures/lineend/fx.go", !hits[not], "")
+	}
 }
 
 // whitespaceAgreement: R4. Two places decide what is insignificant
